@@ -11,12 +11,15 @@ pub struct HavokTransform {
 }
 
 impl HavokTransform {
-    pub fn new(vec: &[HavokReal]) -> Self {
-        Self {
+    /// `None` when the vector has fewer than twelve elements.
+    pub fn new(vec: &[HavokReal]) -> Option<Self> {
+        let vec = vec.get(..12)?;
+
+        Some(Self {
             translation: [vec[0], vec[1], vec[2], vec[3]],
             rotation: [vec[4], vec[5], vec[6], vec[7]],
             scale: [vec[8], vec[9], vec[10], vec[11]],
-        }
+        })
     }
 
     pub fn from_trs(translation: [f32; 4], rotation: [f32; 4], scale: [f32; 4]) -> Self {
